@@ -46,7 +46,7 @@ def radial_volume_desolvation(parameters, group: "Group") -> None:
     """
     assert group.atom.conformation_container is not None
     all_atoms = group.atom.conformation_container.get_non_hydrogen_atoms()
-    volume = 0.0
+    increments = []
     group.num_volume = 0
     min_dist_4th = MIN_DISTANCE_4TH
     for atom in all_atoms:
@@ -65,10 +65,12 @@ def radial_volume_desolvation(parameters, group: "Group") -> None:
             else:
                 dvol = parameters.VanDerWaalsVolume.get(atom.element, 1.0)
             dv_inc = dvol/max(min_dist_4th, sq_dist*sq_dist)
-            volume += dv_inc
+            increments.append(dv_inc)
         # buried
         if sq_dist < parameters.buried_cutoff_squared:
             group.num_volume += 1
+    # exactly rounded sum: the result must not depend on the order of the atoms
+    volume = math.fsum(increments)
     group.buried = calculate_weight(parameters, group.num_volume)
     scale_factor = calculate_scale_factor(parameters, group.buried)
     volume_after_allowance = max(0.00, volume-parameters.desolvationAllowance)
